@@ -72,12 +72,28 @@ CHECKS = {
 PENDING = {
 }
 
+# Additions of later rounds (appended to the level text of the check)
+EXTRA = {
+ "C02": " Also: macroscopic counts (1e7..3e9 molecules per entry, beyond 2^24 and 2^31) with exact integer conservation for the stochastic engines.",
+ "C03": " Also: apply_reaction with its documented options (custom chemostat map replacing the system's, custom state, update=True); chemostat maps given per species label and flags other than 0/1; a 'reservoir' probe - a flagged entry of 1e9..1e14 molecules as diffusion source, up to 1e11 events per channel and step, each entry's one-step change judged against the master equation's mean and variance (Bernstein bound).",
+ "C05": " Also: numpy scalars as plain-number operands (either side).",
+ "C06": " Also: arrays given as tuple / float32 / float16 / int32 / int64 ndarrays and lists of numpy scalars; exponents to +-9 for part of the random cases (judged while every factor and intermediate value stays inside 1e+-280).",
+ "C07": " Also: tau-leap tally cases with means of 150 and 400 events per channel and step.",
+ "C10": " Also: an iterate_n letter with counts beyond a C int (3e9, 2^31, 2^32, 2^32+2, 1e12); termination scripts under all four sampling policies with a 'frozen' family (nothing can happen / the reactant runs out) through simulate_script; fixed-step counts with the step given in fs..h under scripts counting in fs..h.",
+ "C14": " Also: seeds given as numpy integers, floats and 0-d arrays.",
+ "C16": " Also: the identity-map run under random script options (sampling policy / interval / t_max / seed) and the guarantees of init_state_processing 'none' and 'redist' through cgmap=identity.",
+ "C17": " Also: evenly spaced dyadic time lattices (exact ties after odd samples); grids of 130..2000 cells with the cell given as tuple / list / ndarray / numpy scalars / object with numpy members in int8..uint64 and numpy integers as linear index.",
+ "C18": " Also: the scale as the library applies it (1 <text> converted to m, s, mol against the exact ratio).",
+ "C20": " Also: grid sizes whose documented int() cast is not positive (0.5, -0.5, 1e-9 ...).",
+}
+
 def main():
     ids = [json.loads(l)["id"] for l in open(os.path.join(root, "properties.jsonl"))]
     checks = []
     for pid in ids:
         if pid in CHECKS:
             tech, text, note, ref = CHECKS[pid]
+            text = text + EXTRA.get(pid, "")
             checks.append({
                 "property_id": pid,
                 "quick_cmd": "./check %s quick" % pid,
